@@ -25,10 +25,11 @@ const (
 	pGarbage // 10 garbage bytes
 	pArg     // an int32 argument (for echo)
 	pNoCreds // well-formed map without credentials
+	pTokInt  // auth_token is an int value, user good
 	nPayload
 )
 
-var payloadNames = []string{"empty", "good-creds", "bad-creds", "forged-state-uint", "forged-state-int", "user-as-int", "garbage", "int32", "no-creds"}
+var payloadNames = []string{"empty", "good-creds", "bad-creds", "forged-state-uint", "forged-state-int", "user-as-int", "garbage", "int32", "no-creds", "token-as-int"}
 
 func payload(kind int) []byte {
 	switch kind {
@@ -56,6 +57,12 @@ func payload(kind int) []byte {
 		return fx.Int32(5)
 	case pNoCreds:
 		return fx.CapPayload(bus.DefaultCap())
+	case pTokInt:
+		m := bus.DefaultCap()
+		m[bus.KeyUser] = value.String("u")
+		m[bus.KeyToken] = value.Int(7)
+		m[bus.KeyState] = value.Uint(bus.StateDone)
+		return fx.CapPayload(m)
 	}
 	return nil
 }
@@ -92,7 +99,7 @@ func alphabet(full bool) []frame {
 	// frames addressed to service 0
 	for _, t := range types {
 		for _, tgt := range [][3]uint32{{0, 0, 8}, {0, 1, 8}, {0, 0, 0}} {
-			pays := []int{pGood, pBad, pForgedU, pForgedI, pUserInt, pGarbage, pEmpty, pNoCreds}
+			pays := []int{pGood, pBad, pForgedU, pForgedI, pUserInt, pTokInt, pGarbage, pEmpty, pNoCreds}
 			if !full && (t != net.Call && t != net.Capability || tgt[1] != 0) {
 				pays = []int{pGood, pForgedU}
 			}
